@@ -92,7 +92,7 @@ func main() {
 		os.Exit(2)
 	}
 	cfg := explore.Config{Bound: *bound, Shard: *shard, Shards: *shards, ValidateEvery: *validate,
-		MaxSteps: sc.MaxSteps, ExpectCrash: sc.ExpectCrash, MaxViolations: 40}
+		MaxSteps: sc.MaxSteps, ExpectCrash: sc.ExpectCrash, StepLimitFails: sc.StepLimitFails, MaxViolations: 40}
 	if *deadline > 0 {
 		cfg.Deadline = time.Now().Add(time.Duration(*deadline * float64(time.Second)))
 	}
